@@ -53,6 +53,12 @@ func oracleC09(w *world.World, s *coop.Sched, final bool) *Finding {
 		return f
 	}
 	st := storeByIP(w)
+	// what an administrator reserved and has not given back is still reserved: the labelled object exists
+	for ip := range w.AdminReserved {
+		if so, ok := st[ip]; !ok || !so.Reserved {
+			return &Finding{Clause: "administrator-reservation-removed", Detail: fmt.Sprintf("%s was reserved by an administrator and not given back, the store now has {%v present=%v}; store log %v", ip, so, ok, tail(w.StoreLog, 4))}
+		}
+	}
 	for _, b := range liveBound(w) {
 		key := podKeyInDB(w, b.PodKey)
 		for _, ip := range b.IPs {
@@ -201,19 +207,27 @@ func c09Scenarios(tier string) []*Scenario {
 			}})
 	}
 	// administrator reservations with watch events arriving at any later point
-	for _, variant := range []string{"reserve", "reserve+unreserve", "reserve/2pods", "reserve+unreserve/2pods"} {
+	for _, variant := range []string{"reserve", "reserve+unreserve", "reserve/2pods", "reserve+unreserve/2pods", "reserve/ranges", "reserve/2ranges"} {
 		variant := variant
 		two := strings.HasSuffix(variant, "/2pods")
+		ranges := ""
+		switch {
+		case strings.HasSuffix(variant, "/ranges"):
+			ranges = `[["10.10.1.1~10.10.1.2"]]` // the pod asks for a range that contains the reserved address
+		case strings.HasSuffix(variant, "/2ranges"):
+			ranges = `[["10.10.1.2"],["10.10.1.1"]]` // two IPs, the second one is the reserved address
+		}
 		bb := b
 		if two {
 			bb = map[string]int{"preempt": b["preempt"] - 1, "fault": b["fault"]}
 		}
-		out = append(out, &Scenario{Name: "admin-" + variant + "/vs-schedule", Class: "admin/" + strings.TrimSuffix(variant, "/2pods"), Cfg: world.Config{Pools: c09Pools([]string{"10.10.1.1~10.10.1.2"}, nil), Nodes: nodesN1N2},
+		out = append(out, &Scenario{Name: "admin-" + variant + "/vs-schedule", Class: "admin/" + strings.SplitN(variant, "/", 2)[0], Cfg: world.Config{Pools: c09Pools([]string{"10.10.1.1~10.10.1.2"}, nil), Nodes: nodesN1N2},
 			Bounds: bb, Weight: 4,
 			Build: func(w *world.World) []Thread {
 				w.Configs = []string{w.ConfigMap}
 				sts.setWorkload(w, 3)
 				x, y := sts.pod(0), sts.pod(1)
+				x.Ranges = ranges
 				w.CreatePod(x)
 				w.CreatePod(y)
 				done := false
